@@ -199,6 +199,10 @@ class _MetaAbstractArray(type):
             # numpy structured array is strictly a subtype of np.void
             if _dtype_is_numpy_struct_array(obj.dtype):
                 dtype = str(obj.dtype)
+            elif isinstance(obj.dtype, np.dtype) and obj.dtype.kind in "iufc":
+                # Platform-dependent aliases (`longlong`, `ulonglong`, ...) are the same
+                # dtype as `int64`, `uint64`, ...; use the canonical sized name.
+                dtype = obj.dtype.name
         elif hasattr(obj.dtype, "as_numpy_dtype"):
             # TensorFlow
             dtype = obj.dtype.as_numpy_dtype.__name__
